@@ -112,6 +112,10 @@ func termQ(v ssa.Value, qual bool) string {
 		return "param:" + t.Name()
 	case *ssa.Lookup:
 		return "lookup:" + accessPath(t.X, 0)
+	case *ssa.TypeAssert:
+		if !t.CommaOk {
+			return "assert:" + trimMod(t.AssertedType.String())
+		}
 	case *ssa.Convert:
 		return termQ(t.X, qual)
 	case *ssa.ChangeType:
